@@ -140,9 +140,9 @@ theorem createGroup_chained (H : Bytes → Bytes) (txs g : List Transaction) (ra
             have hn0 : ∀ nxt, (mkHead t0 (t0 :: t1 :: rest).length (H (encode (stripSigHeader t0))) fee nxt).next
                 = nxt := fun _ => rfl
             generalize hh0 : mkHead t0 (t0 :: t1 :: rest).length (H (encode (stripSigHeader t0))) fee
-                (H (encode (stripSigHeader u))) = h0
-            have hg0 := hh0 ▸ hg0 (H (encode (stripSigHeader u)))
-            have hn0 := hh0 ▸ hn0 (H (encode (stripSigHeader u)))
+                (nextOf H t0.next (u :: rs)) = h0
+            have hg0 := hh0 ▸ hg0 (nextOf H t0.next (u :: rs))
+            have hn0 := hh0 ▸ hn0 (nextOf H t0.next (u :: rs))
             have hlen' : (u :: rs).length = (t1 :: rest).length := hlen
             refine ⟨?_, ?_, ?_⟩
             · show GroupChained H (setHeader _ h0 :: (u :: rs).map (setHeader _))
@@ -158,7 +158,7 @@ theorem createGroup_chained (H : Bytes → Bytes) (txs g : List Transaction) (ra
               · simp only [HeaderCond, if_true]; rfl
               · rw [setHeader_groupCount, hg0]; exact hn
               · rw [setHeader_groupCount, hg0]
-              · rw [setHeader_next, strip_setHeader, hn0]
+              · rw [setHeader_next, strip_setHeader, hn0]; rfl
               · exact linkOK_chainCheck H _ _ hn (u :: rs) (by simp) hlk
             · simp only [List.length_cons, List.length_map] at hlen' ⊢; omega
             · intro x hx
